@@ -281,6 +281,17 @@ def gen_cases(desc, env):
             weights = rnd.choice(profiles)
             s = ''.join(rnd.choices(alpha, weights=weights, k=ln))
             cases.append(string_case(s, extra_delims=(' ', '-', '\n')))
+        if desc['i'] == 0:
+            # integer literals of any length are integers (no machine word is implied by "a string of digits")
+            for digits in (9, 10, 11, 18, 19, 20, 21, 39, 40, 100):
+                for lead in ('', '-'):
+                    for fill in ('9', '1', '0', '12345678901234567890'):
+                        body = (fill * digits)[:digits]
+                        cases.append(string_case(lead + body, extra_delims=('-',)))
+                        cases.append(string_case(lead + body + 'a', extra_delims=('-',)))
+            for s in ('2147483647', '2147483648', '-2147483648', '-2147483649', '9223372036854775807', '9223372036854775808', '-9223372036854775808',
+                      '-9223372036854775809', '18446744073709551615', '18446744073709551616', '--1', '-', '1-', '+1', ' 1', '1 ', '١٢٣'):
+                cases.append(string_case(s, extra_delims=('-',)))
     return cases
 
 
